@@ -37,6 +37,7 @@ type specEnv struct {
 	errs *[]string
 	depth int
 	preferLocals bool
+	visMode string
 }
 
 func (e *specEnv) errf(format string, args ...any) {
@@ -166,6 +167,43 @@ func (e *specEnv) eval(x ast.Expr) specVal {
 		return specVal{e.sorts().unVal(t, v.t), t}
 	case *ast.CallExpr:
 		return e.call(x)
+	case *ast.CompositeLit:
+		t := lookupTypeName(e.pkg, x.Type)
+		if t == nil {
+			e.errf("unknown type %s", types.ExprString(x.Type))
+			break
+		}
+		stt, ok := t.Underlying().(*types.Struct)
+		si := e.sorts().structOf(t)
+		if !ok || si == nil {
+			e.errf("composite literal of non-struct type %s", typeStr(t))
+			break
+		}
+		args := make([]Term, stt.NumFields())
+		for i := range args {
+			args[i] = e.sorts().zero(stt.Field(i).Type())
+		}
+		for _, el := range x.Elts {
+			kv, ok := el.(*ast.KeyValueExpr)
+			if !ok {
+				e.errf("composite literal needs field names")
+				continue
+			}
+			name := kv.Key.(*ast.Ident).Name
+			for i := 0; i < stt.NumFields(); i++ {
+				if stt.Field(i).Name() == name {
+					v := e.eval(kv.Value)
+					if isInterface(stt.Field(i).Type()) {
+						args[i] = e.toVal(v)
+					} else if v.typ == nil {
+						args[i] = e.sorts().zero(stt.Field(i).Type())
+					} else {
+						args[i] = v.t
+					}
+				}
+			}
+		}
+		return specVal{app(si.ctor, args...), t}
 	}
 	e.errf("unsupported spec expression %s (%T)", types.ExprString(x), x)
 	return specVal{"0", tInt}
@@ -488,6 +526,35 @@ func (e *specEnv) call(x *ast.CallExpr) specVal {
 				return specVal{Eq(l, "0"), tBool}
 			}
 		}
+	case "sametype":
+		if need(2) {
+			return specVal{Eq(app("dynTypeId", e.toVal(arg(0))), app("dynTypeId", e.toVal(arg(1)))), tBool}
+		}
+	case "uncomparable":
+		if need(1) {
+			return specVal{app("uncmpV", e.toVal(arg(0))), tBool}
+		}
+	case "visited":
+		if need(1) {
+			k := arg(0)
+			if e.li == nil {
+				e.errf("visited() outside a loop invariant")
+				break
+			}
+			switch e.visMode {
+			case "init":
+				return specVal{"false", tBool}
+			case "back":
+				if e.li.visBack != nil {
+					return specVal{e.li.visBack(k.t), tBool}
+				}
+			default:
+				if e.li.visHead != nil {
+					return specVal{e.li.visHead(k.t), tBool}
+				}
+			}
+			e.errf("visited(): loop is not a map range")
+		}
 	case "ghost":
 		if need(1) {
 			id, ok := x.Args[0].(*ast.Ident)
@@ -567,6 +634,12 @@ func (e *specEnv) applySpec(sf *SpecFunc, x *ast.CallExpr) specVal {
 		ts[i] = a.t
 	}
 	t := app(fname, ts...)
+	if sf.abstract && sf.replayBody != nil && !tr.openTerm(t) && e.depth < 1 && !tr.unfolded["hint:"+t] {
+		tr.unfolded["hint:"+t] = true
+		n := &specEnv{a: nil, tr: tr, pkg: sf.pkg, st: e.st, old: e.old, vars: bind, errs: e.errs, depth: e.depth + 1}
+		body := n.eval(sf.replayBody)
+		tr.callHints = append(tr.callHints, Eq(t, body.t))
+	}
 	// unfolding instance for closed applications (once per distinct application)
 	if !sf.abstract && !tr.openTerm(t) && e.depth < 2 {
 		pre := "unfolding:" + t
@@ -699,7 +772,7 @@ func (a *Act) lookupLocalVar(e *specEnv, name string) (specVal, bool) {
 func (a *Act) evalSpecBool(st *State, x ast.Expr, li *loopInfo) Term {
 	var errs []string
 	pkg := a.tr.eng.pkgOf(a.fn)
-	e := &specEnv{a: a, tr: a.tr, pkg: pkg, st: st, old: a.entryState, vars: map[string]specVal{}, li: li, errs: &errs}
+	e := &specEnv{a: a, tr: a.tr, pkg: pkg, st: st, old: a.entryState, vars: map[string]specVal{}, li: li, errs: &errs, visMode: a.visMode}
 	t := e.evalBool(x)
 	for _, m := range errs {
 		a.tr.specErr(fmt.Sprintf("%s: %s", fnName(a.fn), m))
